@@ -58,10 +58,6 @@ func H13_robust() {
 	}
 	q, _ := verifBuildQuery(name, qtype, opts)
 	w := verifClient()
-	if o := q.IsEdns0(); o != nil {
-		// recorded finding: the BADVERS reply built by coredns' edns.Version has no question section
-		nd.Known("C13-badvers-empty-question", o.Version() != 0)
-	}
 	if cache.Enabled {
 		// an earlier query for the same name in the other letter case and with the opposite RD/CD
 		// bits fills the response cache: the reply to q may then be built from the cached entry
@@ -82,9 +78,13 @@ func H13_robust() {
 	nd.Assert(len(w.written)+w.raw <= 1, "at-most-one-reply")
 	if len(w.written) == 1 {
 		resp := w.written[0]
-		verifWellFormed(q, resp, w.tcp, "reply")
 		if o := q.IsEdns0(); o != nil && o.Version() != 0 {
 			nd.Assert(resp.Rcode == dns.RcodeBadVers, "unsupported-edns-version-gets-BADVERS")
+			// recorded finding, as narrow as what was observed: the BADVERS reply built by
+			// coredns' edns.Version has no question section (everything else about a reply to an
+			// unsupported version is still judged)
+			nd.Known("C13-badvers-empty-question", resp.Rcode == dns.RcodeBadVers && len(resp.Question) == 0)
 		}
+		verifWellFormed(q, resp, w.tcp, "reply")
 	}
 }
